@@ -63,7 +63,12 @@ pub enum Fault {
     /// short writes / EINTR on output, chunked reads / EINTR on input
     Transparent { wplan: Vec<i64>, rchunks: Vec<i64> },
     /// the pager really exits after reading n bytes
-    PagerQuit { n: usize },
+    /// the pager reads n bytes and ends: exit status `how`, or death by signal `how - 1000`
+    PagerQuit {
+        n: usize,
+        #[serde(default)]
+        how: i32,
+    },
     /// stdout is a pipe whose reader goes away after n bytes
     StdoutQuit { n: usize },
     /// the pager does not read until delta blocks or waits
@@ -121,9 +126,12 @@ pub fn apply(s: &Scenario, f: &Fault) -> RunSpec {
             spec.plan.wplan = wplan.clone();
             spec.plan.rchunks = rchunks.clone();
         }
-        Fault::PagerQuit { n } => {
+        Fault::PagerQuit { n, how } => {
             if let Some(p) = spec.pager.as_mut() {
                 p.mode = format!("quit:{}", n);
+                if *how != 0 {
+                    p.exit_code = *how;
+                }
             }
         }
         Fault::StdoutQuit { n } => spec.stdout_quit_after = Some(*n),
@@ -964,9 +972,16 @@ pub fn main_c18(env: &Env, tier: &str, seed: u64, replay: Option<&str>) -> i32 {
             let total = refi.delivered.len();
             let nq = if total == 0 { 0 } else { rng.range(0, total) };
             if paged {
-                tasks.push(Task { scenario: si, fault: Fault::PagerQuit { n: nq } });
+                tasks.push(Task { scenario: si, fault: Fault::PagerQuit { n: nq, how: 0 } });
             } else if s.paging == "never" && s.kind != "oneshot" {
                 tasks.push(Task { scenario: si, fault: Fault::StdoutQuit { n: nq } });
+            }
+        }
+        if paged && !s.light {
+            // the pager is gone before delta writes its first byte, or ends badly: non-zero status, killed
+            let total = refi.delivered.len();
+            for (nq, how) in [(0usize, 0i32), (0, 1), (total / 2, 1009), (1, 130), (total / 3, 1015)] {
+                tasks.push(Task { scenario: si, fault: Fault::PagerQuit { n: nq, how } });
             }
         }
         if s.kind == "oneshot" {
@@ -1012,7 +1027,8 @@ pub fn main_c18(env: &Env, tier: &str, seed: u64, replay: Option<&str>) -> i32 {
             *fired.entry(t.fault.kind().into()).or_default() += 1;
             let idx = match &t.fault {
                 Fault::Epipe { k } => *k,
-                Fault::PagerQuit { n } | Fault::StdoutQuit { n } => *n as i64,
+                Fault::PagerQuit { n, how } => *n as i64 * 10_000 + *how as i64,
+                Fault::StdoutQuit { n } => *n as i64,
                 _ => simcore::rng::fnv64(format!("{:?}", t.fault).as_bytes()) as i64,
             };
             distinct.insert((t.scenario, t.fault.kind().into(), idx));
